@@ -200,6 +200,11 @@ def docs_for_model(r, root20, has_imports, per_model):
         if k >= 2 and r.random() < 0.7:
             want = r.sample(sorted(c14_docs.DECORATIONS), r.randint(1, 4))
             doc, decs = c14_docs.decorate(doc, random.Random(r.getrandbits(32)), want)
+        if k >= 1 and r.random() < (0.4 if k == 1 else 0.8):
+            # child order (python only; the Coq to1x places map_components / relationship_ref by mcpos / rrpos)
+            want = r.sample(c14_docs.ORDER_MODES, r.randint(1, 3))
+            doc, om = c14_docs.shuffle_children(doc, random.Random(r.getrandbits(32)), want)
+            decs = decs + om
         if r.random() < 0.7:
             doc, nsm = c14_docs.ns_variation(doc, random.Random(r.getrandbits(32)))
             decs = decs + nsm
